@@ -837,7 +837,9 @@ def write_evidence(prop, tier, seed, cfg, results, verdicts, fns, wall, nviol, k
             "symex_s": st.get("runtime_symex_s"),
             "solver_s": round(ss, 3),
             "vccs": st.get("vccs_generated"),
-            "bounds": dict(P.bounds_of(prop, h.short), unwind=h.unwind, unwinding_assertions=True),
+            "bounds": dict(P.bounds_of(prop, h.short), unwind=h.unwind, unwinding_assertions=True,
+                           **({"inputs": "concrete twin: every entry value fixed (all-zero / all-one), OEM fields symbolic"}
+                              if "::fx::" in h.short else {})),
             "note": h.note,
         })
     mir_q = (mir or {}).get("queries", [])
@@ -858,7 +860,9 @@ def write_evidence(prop, tier, seed, cfg, results, verdicts, fns, wall, nviol, k
                     "(shape concrete, contents symbolic; all its checks discharged by the SAT/SMT back end) or one "
                     "MIR->SMT query. Counted as distinct non-trivial only if the verdict was SUCCESSFUL with the "
                     "vacuity cover satisfied and at least one check present (SMT: unsat with the sanity twin sat). "
-                    "Harness names are unique, so distinct == counted.",
+                    "Harness names are unique, so distinct == counted. Harnesses over enumerated concrete inputs "
+                    "(refusal strings, concrete twins under fx::) are single-valuation queries; each is one evaluation.",
+            "single_valuation_harnesses": sum(1 for x in hs if "::fx::" in x["harness"] or "scan_refuse" in x["harness"] or "uuid_refuse" in x["harness"]),
             "samples": samples or [{"note": "no harness ran"}],
             "exhaustive": False,
             "explanation": cfg.get("explanation") or cfg.get("level_text", ""),
